@@ -723,9 +723,17 @@ def check_table_subscripts(facts, rep, rule, table_qn, size, width_of=None, only
                 if b is not None and b.get('k') == 'ref' and b.get('qn') == table_qn:
                     idx = e['r']
             if idx is not None:
-                sites.append((bid, i, e, idx))
+                sites.append((bid, i, e, idx, sum(1 for _ in walk(s))))
         if not sites:
             continue
+        # the CFG lists the arms of `c ? a : T[i]` / `c && T[i]` also as statements of their own, in the blocks guarded
+        # by c: the occurrence inside the smallest statement is the one evaluated under the tightest path condition
+        best = {}
+        for st_ in sites:
+            k_ = (show(st_[2]), locline(st_[2]['loc']))
+            if k_ not in best or st_[4] < best[k_][4]:
+                best[k_] = st_
+        sites = [x[:4] for x in best.values()]
         iv = intervals_for(facts, f, tables, call_ranges=call_ranges)
         rep.fn(f)
         for bid, i, e, idx in sites:
